@@ -102,6 +102,15 @@ class C02(Prop):
                         yield {"op": "loc", "axis": ax, "ix": ["sl", None if s is None else enc(s), None if e is None else enc(e), st],
                                "_src": "ties", "variants": ["warm"]}
 
+    def unsigned_cases(self):
+        """non-monotonic axes stored with an unsigned dtype (differences wrap around): the strict first-to-second rule"""
+        for ld in ("uint8", "uint16", "uint64"):
+            for labels in ([1, 3, 2], [2, 1, 3], [3, 1, 2], [5, 1, 4, 2], [0, 7, 3]):
+                ax = {"name": "x", "kind": "i", "labels": [enc(Fraction(v)) for v in labels], "_order": "shuf", "ldtype": ld}
+                bounds = [None] + [enc(Fraction(v)) for v in labels]
+                for s, e, st in itertools.product(bounds, bounds, [None, 1, 2, -1]):
+                    yield {"op": "loc", "axis": ax, "ix": ["sl", s, e, st], "_src": "strict", "variants": ["warm"]}
+
     def nd_cases(self, rng, n):
         c1 = c01.PROP
         for _ in range(n):
@@ -219,6 +228,8 @@ class C02(Prop):
         for c in self.strict_cases(rng, 50 if tier == "quick" else 600):
             yield c
         for c in self.tie_cases():
+            yield c
+        for c in self.unsigned_cases():
             yield c
         for c in self.nd_cases(rng, 400 if tier == "quick" else 20000):
             if rng.random() < 0.3:
